@@ -250,6 +250,18 @@ def stepOp (rs : Array M) : Val → Option (Array M × String)
     match m.readHistory with
     | some f => pure (rs, s!"(f {pIds f.ids} {pFsss f.params} {pL (f.cost.map pPV)})")
     | none => pure (rs, pErr .type)
+  | .list [.sym "rsup", r] => do          -- write_support_file then read_support_file(iter=True)
+    let m ← getR rs r
+    match m.supportRoundTrip with
+    | some (.ok f) => pure (rs, s!"(f {pIds f.ids} {pFsss f.params} {pL (f.cost.map pPV)})")
+    | some (.error e) => pure (rs, pErr e)
+    | none => pure (rs, pErr .type)
+  | .list [.sym "rconv", r] => do         -- write_converge_file then read_converge_file(iter=True)
+    let m ← getR rs r
+    match m.convergeRoundTrip with
+    | some (.ok f) => pure (rs, s!"(f {pIds f.ids} {pFsss f.params} {pL (f.cost.map pPV)})")
+    | some (.error e) => pure (rs, pErr e)
+    | none => pure (rs, pErr .type)
   | _ => none
 
 def runOps : Array M → List Val → List String → Option (List String)
@@ -396,6 +408,16 @@ def handle : Handler
     let some ids := ids.mapM parseOptInt | return "bad-op"
     let some n := (kw? args "n").bind Val.asNat? | return "bad-op"
     return "ok s=" ++ pIds (some (processIdsL ids n))
+  | .sym "idfile" :: args => Id.run do     -- the `id` entry of a parameter file: what is written, what is read back
+    let some ids := (kw? args "ids").bind Val.asList? | return "bad-op"
+    let some ids := ids.mapM parseOptInt | return "bad-op"
+    let n := ids.length
+    let w := match idsWritten ids with
+      | .absent => "absent"
+      | .single v => s!"(single {pOI v})"
+      | .many l => pL ("many" :: l.map pOI)
+    let back := processIds (idsWritten ids) n
+    return s!"ok w={w} s={pIds back} col={pL ((idColumn back n).map pOI)} it={pNs (perIdIter ids)}"
   | .sym "hprog" :: args => Id.run do
     let some ops := (kw? args "ops").bind Val.asList? | return "bad-op"
     let nreg := ((kw? args "nreg").bind Val.asNat?).getD 5
